@@ -161,7 +161,7 @@ func (c *genCfg) inputs(emit func(string)) {
 		}
 	case "g3":
 		// the grammar lists themselves: the Lean specification (Spec/SqliGrammar.lean) must list the same grammar
-		for _, k := range []string{"sk", "pr", "tl", "sp"} {
+		for _, k := range []string{"sk", "pr", "tl", "sp", "ps", "pp", "tr"} {
 			emit(c03ListMagic + k)
 		}
 		oc := &oracleCfg{prop: "C03", tier: c.tier, seed: c.seed, scale: c.scale}
